@@ -275,6 +275,7 @@ double cs_vector_wiggle;
 int cs_vector_on_cal;
 
 int cs_param_fillers;
+int cs_real_scalars;
 
 int cs_make_params(vnacal_t *vcp, cs_scenario *sc)
 {
@@ -1071,7 +1072,7 @@ static int mk_value_param(cs_scenario *sc, int kv, cs_c c0, cs_c c1, cs_c c2)
 	p.npts = 7; p.lo = 0.9; p.hi = 1.1;
     } else {
 	p.kind = CSP_SCALAR;
-	p.c0 = c0;
+	p.c0 = cs_real_scalars ? (cs_c)creal(c0) : c0;
     }
     return add_param(sc, p);
 }
